@@ -23,25 +23,58 @@ use std::io::{self, Read, Write};
 use std::sync::{Arc, Condvar, Mutex};
 use std::time::{Duration, Instant};
 
-/// run one scenario on its own thread; a scenario that does not finish (a call on the real code that never returns) is a failure
+/// run one scenario on its own thread; a scenario that does not finish (a call on the real code that never returns) is a failure.
+/// A scenario that panics is reported at once, from the panic hook: unwinding its thread drops Connections / Channels, which may block for as
+/// long as the watchdog allows when the broker side is gone.
 pub fn with_watchdog<F: FnOnce() + Send + 'static>(what: String, secs: u64, f: F) {
-    let (tx, rx) = std::sync::mpsc::channel();
-    let h = std::thread::spawn(move || {
-        f();
-        let _ = tx.send(());
-    });
-    match rx.recv_timeout(Duration::from_secs(secs)) {
-        Ok(()) => {
-            let _ = h.join();
-        }
-        Err(std::sync::mpsc::RecvTimeoutError::Disconnected) => {
-            // the scenario panicked: propagate its message
-            match h.join() {
-                Err(e) => std::panic::resume_unwind(e),
-                Ok(()) => {}
+    use std::sync::atomic::{AtomicUsize, Ordering as AtOrd};
+    static HOOK: std::sync::Once = std::sync::Once::new();
+    static COUNTER: AtomicUsize = AtomicUsize::new(0);
+    static PANICS: Mutex<Vec<(String, String)>> = Mutex::new(Vec::new());
+    HOOK.call_once(|| {
+        let previous = std::panic::take_hook();
+        std::panic::set_hook(Box::new(move |info| {
+            if let Some(name) = std::thread::current().name() {
+                if name.starts_with("verif-scenario-") {
+                    let msg = info.payload().downcast_ref::<String>().cloned().or_else(|| info.payload().downcast_ref::<&str>().map(|s| s.to_string())).unwrap_or_else(|| "(panic)".to_string());
+                    PANICS.lock().unwrap_or_else(|e| e.into_inner()).push((name.to_string(), msg));
+                }
             }
+            previous(info);
+        }));
+    });
+    let name = format!("verif-scenario-{}", COUNTER.fetch_add(1, AtOrd::SeqCst));
+    let (tx, rx) = std::sync::mpsc::channel();
+    let h = std::thread::Builder::new()
+        .name(name.clone())
+        .spawn(move || {
+            f();
+            let _ = tx.send(());
+        })
+        .unwrap();
+    let start = Instant::now();
+    loop {
+        match rx.recv_timeout(Duration::from_millis(20)) {
+            Ok(()) => {
+                let _ = h.join();
+                return;
+            }
+            Err(std::sync::mpsc::RecvTimeoutError::Disconnected) => {
+                // the scenario panicked and has finished unwinding: propagate its message
+                match h.join() {
+                    Err(e) => std::panic::resume_unwind(e),
+                    Ok(()) => return,
+                }
+            }
+            Err(std::sync::mpsc::RecvTimeoutError::Timeout) => {}
         }
-        Err(std::sync::mpsc::RecvTimeoutError::Timeout) => panic!("{}: the scenario did not finish within {} s (some call on the real code never returns)", what, secs),
+        let panicked = PANICS.lock().unwrap_or_else(|e| e.into_inner()).iter().find(|(n, _)| *n == name).map(|(_, m)| m.clone());
+        if let Some(msg) = panicked {
+            panic!("{}", msg);
+        }
+        if start.elapsed() > Duration::from_secs(secs) {
+            panic!("{}: the scenario did not finish within {} s (some call on the real code never returns)", what, secs);
+        }
     }
 }
 
